@@ -42,6 +42,8 @@ struct State {
   std::map<int, std::deque<AQ>> aq;
   std::set<int> async_fds;
   std::set<int> opaque_fds;               // content not checked (the driver's signalling pipe)
+  std::set<int> tls_fds;                  // TLS sockets: the wire carries what the (scripted) engine writes; plaintext is
+  std::map<int, uint64_t> plain_out, plain_in;   // tracked at the engine boundary instead (fakessl.cpp)
   // sched mode: kernel answers come from the harness' virtual state instead of the script
   struct Hooks {
     int (*poll)(struct pollfd *, unsigned long, int) = nullptr;
